@@ -9,6 +9,7 @@ import props_panic
 import props_sibling
 import props_values
 import witness
+import props_fixture
 
 COMMON_ASSUMPTIONS = [
     "rustc's type checker / MIR construction and the fact extractor's serialisation are trusted",
@@ -18,7 +19,7 @@ COMMON_ASSUMPTIONS = [
 ]
 
 PROPS = {
-    "C01": dict(fn=props_policy.check_C01, floor={"sync": 30, "async": 30},
+    "C01": dict(fn=props_policy.check_C01, floor={"sync": 30, "async": 30}, once=lambda rep: props_fixture.check_fixture(rep, {"locks"}),
                 explanation="Inductive invariant used == sum(key_costs) and used <= max_cost after admission, decided structurally on the MIR of "
                             "SampledLFU and impl_policy!::add (both flavours): writer inventory, symbolic effect balance per path, guard dominance "
                             "(oversize test, key-absent test), typestate of `room` (fresh and >= 0 at every admission), value of room_left, capacity plumbing."),
@@ -64,7 +65,7 @@ PROPS = {
                 explanation="Store/policy agreement decided as pairing + thread-affinity rules: membership-changing operations run only on the processor (call graph with thread "
                             "contexts), handle_item pairs added<->try_insert, victim<->try_remove, Delete<->policy.remove+store.try_remove, client remove pairs the store removal with a "
                             "queued Delete of the same (index, conflict), the sweeper pairs policy.remove with store.try_remove, no fallible call sits between paired changes, len() sums all shards."),
-    "C10": dict(fn=props_life.check_C10, floor={"sync": 18, "async": 18},
+    "C10": dict(fn=props_life.check_C10, floor={"sync": 18, "async": 18}, once=lambda rep: props_fixture.check_fixture(rep, {"leak", "locks"}),
                 explanation="wait() barrier decided structurally: a single bounded FIFO with three audited send sites and two receivers (both on the processor), handle_item applies items "
                             "synchronously and exhaustively with a releasing Wait arm, the Wait token is released on every way an item can be destroyed (Drop of its carrier, async drain after close), "
                             "wait() uses try_send and waits only after a successful enqueue, closed check first, workers leave their loops on the stop arm."),
@@ -72,7 +73,7 @@ PROPS = {
                 explanation="clear() decided structurally: signal + policy/store/metrics reset on every successful path, the cleaner drains the buffer (New -> on_evict, Wait -> release), "
                             "policy.clear/TinyLFU::clear/SampledLFU::clear/ShardedMap::clear/Metrics::clear reset every piece of state, stale expiry-bucket entries are inert (sweeper predicate), "
                             "thread affinity of the reset."),
-    "C12": dict(fn=props_life.check_C12, floor={"sync": 25, "async": 25},
+    "C12": dict(fn=props_life.check_C12, floor={"sync": 25, "async": 25}, once=lambda rep: props_fixture.check_fixture(rep, {"locks", "unwrap"}),
                 explanation="close() decided structurally: every public operation tests is_closed before its first effect and returns the neutral value when closed, close() must pass through "
                             "stop signal + policy.close() + flag, worker loops return on their stop arm for message and disconnect alike and own no sender, no public operation unwraps a "
                             "Result whose Err is constructible (interprocedural may-Err analysis)."),
@@ -90,7 +91,7 @@ PROPS = {
                 explanation="Closed-world argument: every site that removes or overwrites a store entry or releases a charge is inventoried (shard mutations, callers of try_remove / "
                             "clear / policy.remove / SampledLFU::remove) and each category's guard is checked: eviction/rejection only while room < 0, sweeper only for due, non-zero, "
                             "elapsed deadlines of the same key, expiry-index update moves exactly one key, an absent key is always inserted, insert fails only on buffer-full/closed."),
-    "C20": dict(fn=props_panic.check_C20, floor={"sync": 60, "async": 60},
+    "C20": dict(fn=props_panic.check_C20, floor={"sync": 60, "async": 60}, once=lambda rep: props_fixture.check_fixture(rep, {"locks", "unwrap"}),
                 explanation="Accepted configurations decided structurally: finalize returns InvalidNumCounters / InvalidMaxCost / InvalidBufferSize on the respective zero before any channel, "
                             "policy or worker is created and hands the validated values on; every panic-capable site of the crate (bounds / division asserts, unwrap / expect, Vec indexing, explicit "
                             "panics) is enumerated and must be discharged automatically (constant divisor, index bounded by construction, infallible Result by the may-Err analysis, builder options "
@@ -98,7 +99,7 @@ PROPS = {
                             "and no unexpected user callback under a lock.",
                 assumptions=["overflow checks (debug builds only) on cost / counter arithmetic are not counted as panic sites: costs are user data outside the configuration space of C20",
                              "the system clock does not step backwards (Time::elapsed / unix unwrap a SystemTimeError)"]),
-    "C08": dict(fn=props_values.check_C08, floor={"sync": 40, "async": 40}, once_thorough=lambda rep: witness.check_witnesses(rep, "R08.3/K11"),
+    "C08": dict(fn=props_values.check_C08, floor={"sync": 40, "async": 40}, once=lambda rep: props_fixture.check_fixture(rep, {"leak"}), once_thorough=lambda rep: witness.check_witnesses(rep, "R08.3/K11"),
                 explanation="Value conservation decided structurally: (R08.1) move analysis on mir_built of every repository body: each implicit drop of a value-bearing local (V, Option<V>, "
                             "StoreItem<V>, Item<V>, UpdateResult<V>, send errors, ...) that is live on some path is enumerated and must be one of the audited `insert -> false` / remnant cases; "
                             "(R08.2) routing table: the closed list of callers of on_exit / on_evict / on_reject with the provenance of the value each hands over; (R08.3) no duplication or leak "
